@@ -184,6 +184,11 @@ def _make_process(name, tree, which, expose_from=None, expose_kwargs=None, sep=N
     def define(cls, spec):
         super(klass, cls).define(spec)
         pm.build_namespace(spec, 'input' if which == 'inputs' else 'output', tree)
+        if sep:
+            # state that only the namespace subclass knows about (like aiida's `non_db`): it travels with the namespace
+            for path, port in _walk(getattr(spec, which)):
+                if isinstance(port, real.PortNamespace):
+                    port.pv_tag = 'tag:' + name + ':' + path
         if expose_from is not None:
             getattr(spec, 'expose_' + which)(expose_from, **expose_kwargs)
 
@@ -263,7 +268,10 @@ def execute(case):
         if diff:
             v('destination-tree', diff)
         else:
-            _independence(case, src_ns, dst_ns, io, namespace, v)
+            if sep:
+                _subclass_state(src_ns, dst_ns, namespace, v)
+            if not viol:
+                _independence(case, src_ns, dst_ns, io, namespace, v)
 
     prefix_sibling = False
     for rule in case['rules']:
@@ -320,6 +328,27 @@ def _walk(ns_real, prefix=''):
         yield prefix + name, sub
         if isinstance(sub, real.PortNamespace):
             yield from _walk(sub, prefix + name + '.')
+
+
+def _subclass_state(src_ns, dst_ns, namespace, v):
+    """Exposed nested namespaces keep the class of the source namespace and what that class added to it."""
+    target = dst_ns
+    if namespace:
+        for part in namespace.split('.'):
+            target = target[part]
+    source = dict(_walk(src_ns))
+    for path, port in _walk(target):
+        src = source.get(path)
+        if not isinstance(port, real.PortNamespace) or not isinstance(src, real.PortNamespace) or not hasattr(src, 'pv_tag'):
+            continue
+        if getattr(port, 'pv_tag', None) == 'tag:Dst:' + ((namespace + '.') if namespace else '') + path:
+            continue  # a namespace the destination had declared itself
+        if type(port) is not type(src):
+            v('namespace-class-lost', f'exposed namespace {path} is a {type(port).__name__}, the source namespace is a {type(src).__name__}')
+            return
+        if getattr(port, 'pv_tag', None) != src.pv_tag:
+            v('namespace-subclass-state-lost', f'exposed namespace {path}: attribute set by the namespace subclass is {getattr(port, "pv_tag", None)!r}, source has {src.pv_tag!r}')
+            return
 
 
 def _mutate(ns_real, io):
